@@ -218,6 +218,12 @@ func genNearValue(t *rapid.T, d D) D {
 		return d
 	}
 	c := new(big.Int).Add(m.Coef, bi(int64(ir(t, -1, 1, "du"))))
+	if ir(t, 0, 2, "higherDigit") == 0 {
+		// the difference one to eight places above the last digit of this encoding, digits below it zero: when the
+		// other operand is coarser, its alignment drops "d0", "d00", ... and every multi-digit step has to notice d
+		j := ir(t, 1, 8, "place")
+		c = new(big.Int).Add(m.Coef, new(big.Int).Mul(bi(int64(ir(t, -9, 9, "d"))), ref.Pow10(j)))
+	}
 	if c.Sign() < 0 || c.Cmp(ref.Cmax) > 0 {
 		c = m.Coef
 	}
